@@ -227,7 +227,7 @@ def main_check(modname, tier, seed, replay_path=None, extra_cov=None):
         return 3
 
     n_new = 0
-    rdir = os.path.join(VERIF, "replays", pid)
+    rdir = os.path.join(os.environ.get("VERIF_EVIDENCE_DIR") or VERIF, "replays", pid)
     lines = []
     seen_known = []
     for key in order:
@@ -291,8 +291,9 @@ def main_check(modname, tier, seed, replay_path=None, extra_cov=None):
         "wall_s": round(wall, 2),
         "violations": n_new,
     }
-    os.makedirs(os.path.join(VERIF, "evidence"), exist_ok=True)
-    with open(os.path.join(VERIF, "evidence", pid + ".json"), "w") as f:
+    evdir = os.environ.get("VERIF_EVIDENCE_DIR") or os.path.join(VERIF, "evidence")  # (mutant runs write elsewhere)
+    os.makedirs(evdir, exist_ok=True)
+    with open(os.path.join(evdir, pid + ".json"), "w") as f:
         json.dump(ev, f, indent=1)
     for ln in lines:
         print(ln)
